@@ -38,7 +38,7 @@ static void exec_op(Script& me, const std::vector<std::string>& op) {
     if ((k == "unlock" || k == "rwunlock") && me.held[op[1]] <= 0) return;
     if ((k == "intr" || k == "shutdown") && !scripts.at(op[1]).th) return;
     if (k == "cvwait" && me.held[op[2]] <= 0) return;
-    if ((k == "lock" || k == "trylock") && objs.at(op[1]).kind == "mutex" && me.held[op[1]] > 0) return;   // no self-deadlock on a plain mutex
+    if ((k == "lock" || k == "trylock") && (objs.at(op[1]).kind == "mutex" || objs.at(op[1]).kind == "cmutex") && me.held[op[1]] > 0) return;   // no self-deadlock on a plain mutex
     emit("call %s%s @%lu", me.name.c_str(), join_args(op).c_str(), (unsigned long)vnow);
     long ret = 0; int en = 0; errno = 0;
     auto O = [&](int i) -> Obj& { return objs.at(op[i]); };
@@ -88,7 +88,7 @@ static void report_state(const char* tag) {
     // real object state for the quiescence predicates (compared with the model by the checker)
     for (auto& kv : objs) {
         auto& o = kv.second;
-        if (o.kind == "mutex" || o.kind == "rmutex") { auto m = (photon::mutex*)o.p; emit("%s mutex %s owner=%s", tag, kv.first.c_str(), name_of(m->owner.load()).c_str()); }
+        if (o.kind == "mutex" || o.kind == "rmutex" || o.kind == "cmutex") { auto m = (photon::mutex*)o.p; emit("%s mutex %s owner=%s", tag, kv.first.c_str(), name_of(m->owner.load()).c_str()); }
         else if (o.kind == "sem") { auto s = (photon::semaphore*)o.p; emit("%s sem %s count=%lu", tag, kv.first.c_str(), (unsigned long)s->count()); }
         else if (o.kind == "rw") { auto r = (photon::rwlock*)o.p; emit("%s rw %s state=%ld", tag, kv.first.c_str(), (long)r->state); }
     }
@@ -108,6 +108,7 @@ static int run_program(const std::vector<std::string>& lines) {
         std::istringstream is(l); std::string w; is >> w;
         if (w == "obj") { std::string kind, name; is >> kind >> name; Obj o{kind, nullptr};
             if (kind == "mutex") { int r; is >> r; o.p = new photon::mutex((uint16_t)r); }
+            else if (kind == "cmutex") { int r; is >> r; o.p = new photon::mutex((uint16_t)r, true); }
             else if (kind == "rmutex") { int r; is >> r; o.p = new photon::recursive_mutex((uint16_t)r); }
             else if (kind == "sem") { uint64_t c; int ino; is >> c >> ino; o.p = new photon::semaphore(c, ino != 0); }
             else if (kind == "cv") o.p = new photon::condition_variable;
